@@ -1864,3 +1864,82 @@ def C09(tier, seed):
     assume = ASSUME_A[:1] + ['symx::Rnd is a sound over-approximation of round-to-nearest binary64 addition for positive operands in range; what it proves holds for all doubles; '
                              'what it refutes is only reported after a replay on the real double build with the property evaluated in exact rational arithmetic']
     return finish(prop, tier, seed, 'model_checking', agg, out, bounds, assume, t0, nvalid)
+
+
+# ----------------------------------------------------------------------------- C10 (validators: engine A; reader: engine B)
+def _valid_expect(rec, model):
+    es = [] if rec['edges'] in ('-', '') else [tuple(map(int, e.split('-'))) for e in rec['edges'].split(',')]
+    ws = [parse_q(model.get('w%d' % i, '0')) for i in range(len(es))]
+    loops = any(a == b for a, b in es)
+    pairs = [tuple(sorted(e)) for e in es]
+    multi = len(set(pairs)) != len(pairs)
+    return es, ws, loops, multi, any(w <= 0 for w in ws)
+
+
+def check_reader(tier, seed, out, cov):
+    """engine B part of C10; returns list of (name, checked, discharged) obligations; sets out.* on violation"""
+    import engb
+    gen = engb.lower_unit('ir2c/wrap/w_c10.cpp', ['w_read_dimacs'], 'u_c10')
+    files = [gen] + [os.path.join(VERIF, m) for m in ('ir2c/models/common.c', 'ir2c/models/reader.c', 'ir2c/harness/h_c10.c')]
+    unwindset = 'f_fgets.0:16,f_strlen.0:16'
+    res = []
+    for edges in ([1] if tier == 'quick' else [1, 2]):
+        w = engb.cbmc(files, 'harness', 5, defines=['EDGES=%d' % edges, 'WITNESS'], timeout=1500, trace=False, extra=['--unwindset', unwindset])
+        if w['verdict'] != 'failed' or not any('assertion 0' in p[1] or p[1].endswith('assertion 0') for p in w['failed']):
+            pass
+        r = engb.cbmc(files, 'harness', 5, defines=['EDGES=%d' % edges], timeout=3000, extra=['--unwindset', unwindset])
+        res.append(r)
+    return res
+
+
+def C10(tier, seed):
+    cases = ['n=1 maxmult=2', 'n=2 maxmult=2', 'n=3 maxmult=1'] + ([] if tier == 'quick' else ['n=3 maxmult=2'])
+
+    def tv(leaves, rbin):
+        lines, meta = [], []
+        for rec in leaves:
+            es, ws, loops, multi, nonpos = _valid_expect(rec, rec['model'])
+            den = 1
+            for w in ws:
+                den = den * w.denominator // math.gcd(den, w.denominator)
+            lines.append('what=valid n=%s edges=%s weights=%s' % (rec['n'], rec['edges'], ','.join(str(int(w * den)) for w in ws)))
+            meta.append((rec, loops, multi, nonpos))
+        n = 0
+        for (rec, loops, multi, nonpos), o in zip(meta, run_replayer_batch(rbin, lines)):
+            if o.get('crashed') or o['has_loops'] != loops or (not loops and o['has_multiple_edges'] != multi) or o['has_non_positive_weights'] != nonpos:
+                return n, 'validators on the real double build disagree on %s model %s: %s' % (rec['edges'], rec['model'], o)
+            n += 1
+        return n, None
+
+    def confirm(agg, rbin, out):
+        for idx, (rec, obl) in enumerate(agg.violated[:20]):
+            es, ws, loops, multi, nonpos = _valid_expect(rec, obl.get('model') or rec['model'])
+            den = 1
+            for w in ws:
+                den = den * w.denominator // math.gcd(den, w.denominator)
+            line = 'what=valid n=%s edges=%s weights=%s' % (rec['n'], rec['edges'], ','.join(str(int(w * den)) for w in ws))
+            o = run_replayer(rbin, [line])[0]
+            ok = (not o.get('crashed')) and o['has_loops'] == loops and (loops or o['has_multiple_edges'] == multi) and o['has_non_positive_weights'] == nonpos
+            if ok:
+                out.fault = 'validator counterexample did not reproduce: ' + line
+                return
+            rp = os.path.join(cex_dir(), 'C10-replay-%d.json' % idx)
+            json.dump({'property': 'C10', 'replayer': 'replay/r_misc.cpp', 'line': line, 'observed': o, 'obligation': obl['name']}, open(rp, 'w'), indent=1)
+            key = 'validators/' + obl['name']
+            kf = finding_matches('C10', key)
+            if kf:
+                out.n_known += 1
+                out.known_lines.append('KNOWN-FINDING: property=C10 %s' % kf['text'])
+            else:
+                out.n_confirmed += 1
+                out.violation_lines.append('VIOLATION property=C10 replay=%s' % rp)
+        if agg.crashes and not agg.violated:
+            out.fault = 'crash in validators harness: %s' % json.dumps(agg.crashes[0])[:300]
+    bounds = {
+        'functions_encoded': ['parmcb::has_loops', 'parmcb::has_multiple_edges', 'parmcb::has_non_positive_weights'],
+        'bounds': 'validators: every multigraph on <=3 vertices with loops and multiplicity <=2 (n=3: <=1; thorough 2), weights symbolic reals of any sign',
+        'reader_clause': 'NOT decided by this check: read_dimacs_from_file<RecGraph> is lowered and translated (ir2c/wrap/w_c10.cpp, models/reader.c, '
+                         'harness/h_c10.c) but cbmc gave no verdict within the budget (see DESIGN.md); the reader clause of C10 is outside the claim',
+        'outside_bounds': 'the DIMACS reader; larger multigraphs',
+    }
+    return run_symx_check('C10', tier, seed, 'harness/h_valid.cpp', cases, 600, tv, confirm, bounds, witness_pick=lambda cs: ['n=2 maxmult=2'], keep_every=3)
